@@ -6,7 +6,9 @@ relational for the range-expansion / fitting heuristics: the Lean monitor `insid
 replace_with emit for ranges inside an isolating node, and each emitted step is applied by the model
 too; lift targets and approved splits must stay inside.
 `delete_range`'s widened range is tied exactly to lean/PM/RangeOps.lean (harness/rangeplan.py), for which Props/C18.lean
-proves that it stays inside an isolating node containing both ends.
+proves that it stays inside an isolating node containing both ends; likewise every range `replace_range` hands to
+`Transform.replace` (lean/PM/ReplaceRange.lean, `replaceRange_inside_isolating`) and the pair `replace_range_with` passes on
+(`replaceRangeWith_target`; insert_point may move it outside: open finding C18-insert-point-outside).
 Search: tokens before the node's opening and after its closing unchanged, the node itself (type,
 attributes, marks) still there — for all ranges inside isolating nodes incl. their whole content.
 """
